@@ -47,6 +47,17 @@ func sortValueInterp(c *Ctx, w *absint.World) *absint.Interp {
 		return nil
 	}
 	it.Symmetric = map[string]bool{"bytes.Equal": true}
+	// unexported helpers of lib/query are executed, so that splitting Less / EquivalentTo into per-type helpers
+	// leaves the decided laws unchanged
+	it.InlinePred = func(f *ssa.Function) bool {
+		if f == nil || f.Blocks == nil || !c.P.InPkg(f, "lib/query") {
+			return false
+		}
+		if f.Parent() != nil {
+			return true
+		}
+		return f.Object() != nil && !f.Object().Exported()
+	}
 	it.AtomKey = func(k string) string {
 		// strict mode is a property of the session: both values carry a key or none does
 		return strings.ReplaceAll(k, "nil:B.SerializedKey", "nil:A.SerializedKey")
